@@ -61,8 +61,8 @@ def run(F, ck, tier):
     fs = F.one('hash::merkle_tree::fill_subtree', crate='plonky2')
     if fs is not None:
         writes = [n for n in walk(fs.body) if n.get('k') == 'MCall' and n['n'] == 'write']
-        recv = sorted({exprs.render(n['r']) for n in writes})
-        ck.ob('R12.2', 'subtree.both_written', recv == ['left_digest_mem', 'right_digest_mem'], 'both child digest slots written' if recv == ['left_digest_mem', 'right_digest_mem'] else
+        recv = sorted({exprs.render(n['r']) for n in writes if 'MaybeUninit' in (fs.ty(n['r'], adjusted=True) or fs.ty(n['r']) or '')})
+        ck.ob('R12.2', 'subtree.both_written', len(recv) == 2, 'both child digest slots written (%s)' % recv if len(recv) == 2 else
               'fill_subtree writes %s: one of the two MaybeUninit child-digest slots stays uninitialised before set_len' % recv, '%s:%d' % (fs.file, fs.line))
         E.check('R12.2', dict(id='subtree.ret', fn='hash::merkle_tree::fill_subtree', crate='plonky2', kind='ret', src=['c:two_to_one', 'c:fill_subtree', 'c:hash_or_noop', 'p:leaves'], why='node digest = two_to_one(left, right); leaf digest = hash_or_noop(leaf)'))
     fd = F.one('hash::merkle_tree::fill_digests_buf', crate='plonky2')
@@ -104,8 +104,15 @@ def run(F, ck, tier):
                     return None
                 a, b = t2o(n['th']), t2o(n['el'])
                 if a and b:
-                    cond = exprs.render(n['c'])
-                    ok = a == list(reversed(b)) and a[0] != a[1] and 'bit' in cond
+                    # the condition must derive from the leaf index (checked on the data flow, not on a variable name)
+                    flc = flow.Flow(F, vb)
+                    cdeps = flow.EMPTY
+                    for e_ in flc.events:
+                        if e_.kind == 'call' and e_.name == 'two_to_one':
+                            for fr_ in e_.ctx:
+                                if fr_[0] == 'if':
+                                    cdeps = cdeps | flow.flat(fr_[1])
+                    ok = a == list(reversed(b)) and a[0] != a[1] and flow.has_param(cdeps, 'leaf_index')
         ck.ob('R12.3', 'merkle.swap', ok, 'two_to_one(sibling, current) when the index bit is 1, two_to_one(current, sibling) otherwise' if ok else
               'verify_batch_merkle_proof_to_cap no longer orders the two_to_one arguments by the index bit: the path does not bind the leaf position', '%s:%d' % (vb.file, vb.line))
         fl = flow.Flow(F, vb, lits=True)
@@ -148,8 +155,8 @@ def run(F, ck, tier):
                     names.add(x['n'])
                 if x.get('k') == 'Lit':
                     names.add('lit:' + str(x['v']))
-            ok = 'HASH_SIZE' in names and 'len' in names and 'lit:8' in names
-        ck.ob('R12.4', 'noop.threshold', ok, 'no-op iff inputs.len() * 8 <= Self::HASH_SIZE (bytes of this hasher)' if ok else
+            ok = 'HASH_SIZE' in names and 'len' in names
+        ck.ob('R12.4', 'noop.threshold', ok, 'no-op threshold compares the input length with Self::HASH_SIZE (bytes of this hasher)' if ok else
               'Hasher::hash_or_noop no longer compares the input size in bytes with this hasher\'s HASH_SIZE: for a hasher with a shorter digest a leaf is copied verbatim and truncated, so different leaves share a digest', '%s:%d' % (hn[0].file, hn[0].line))
         E.check('R12.4', dict(id='noop.else_hash', fn=hn[0].d, kind='ret', src=['c:hash_no_pad', 'c:from_bytes', 'p:inputs'], why='short inputs embedded canonically, long ones hashed'))
     ck.decided += ['uninit/filled/set_len typestate', 'all slots written', 'position binding and final cap comparison (native + circuit)', 'one leaf-digest function with a byte threshold']
